@@ -76,6 +76,19 @@ CHECKS = {
             "Accepted programs at both optimisation settings are stored and reloaded in the same process, in a fresh child process "
             "and through the nslc.py command line; listing, global table and VM behaviour on generated inputs must be identical.",
             "Trusted: the in-memory module is the reference; VM failures are compared by exception class.", "4/C17"),
+    "C03": ("exploration",
+            "Hypothesis call-graph generation (parameter-modifying callees, nesting, recursion, overloads) + reference-interpreter "
+            "differential oracle with explicit frames",
+            "Generated multi-function programs whose callees modify their scalar/vector/matrix parameters and whose callers re-read "
+            "their own parameters afterwards are run on the VM and compared with the reference interpreter (value, globals, "
+            "untouched host argument objects).", "Trusted: vf/interp.py call semantics (copy-in, fresh frame).", "4/C03"),
+    "C04": ("exploration",
+            "exhaustive enumeration of swizzle masks and element indices + Hypothesis vector/matrix programs; reference-interpreter "
+            "differential oracle",
+            "All 1 960 read masks, 332 write masks and every constant/dynamic index on vectors and matrices, plus generated "
+            "programs over constructors, component-wise operators, matrix products, nested element writes and copies, compared "
+            "with the reference interpreter's functional value semantics.",
+            "Trusted: vf/interp.py vector/matrix semantics; integer component division only compared where exact.", "4/C04"),
 }
 
 PENDING = {}
